@@ -2,7 +2,7 @@
 From Coq Require Import ZArith List Bool.
 From Darr Require Import Base ArrayModel RaggedModel Spec Crash Proofs.ArrayRefine Proofs.ArrayHist Proofs.CrashSafe
      Proofs.RaggedBase Proofs.RaggedRefine Proofs.RaggedProps Proofs.RCrashSafe
-     Skel Gen_effects EffectOrder Proofs.SkelProofs.
+     Skel Gen_effects EffectOrder Proofs.SkelProofs EffectOrderR Proofs.SkelRProofs.
 Import ListNotations.
 Open Scope Z_scope.
 
@@ -98,6 +98,18 @@ Theorem C17_append_chunk_order_from_source : forall h c es r,
   runs fdprim nosub sk_append (match r with Some _ => Returned | None => Raised end) (map kind_of es).
 Proof. exact append_one_runs. Qed.
 Print Assumptions C17_append_chunk_order_from_source.
+
+(* truncate_raggedarray: indices/ is cut first (data file, description, README of that
+   sub-array), then values/ when something is left to cut, then the top-level README and
+   description -- as the skeleton of the present darr/raggedarray.py says, with the calls
+   tagged by the sub-array they are made on ("truncate_array@_indices").  A call on a
+   sub-array contributes the effects the Array theorem above gives it, or a prefix of
+   them when it raises. *)
+Theorem C17_ragged_truncate_order_from_source : forall h d idx r h' es,
+  rtruncate h d idx = (r, h', es) ->
+  exists o, oc_match r o /\ rruns sk_truncate_raggedarray o (map rkind_of es).
+Proof. exact rtruncate_runs. Qed.
+Print Assumptions C17_ragged_truncate_order_from_source.
 
 (* non-vacuity: the recovery path of a two-chunk append whose second chunk is refused *)
 Example C17_order_example :
